@@ -18,6 +18,7 @@ import (
 	"testing"
 	"time"
 
+	"connectrpc.com/conformance/internal"
 	"connectrpc.com/conformance/internal/verifutil"
 )
 
@@ -567,13 +568,15 @@ func TestVerifC16HTTP(t *testing.T) {
 	type perName struct {
 		mu     sync.Mutex
 		traces map[string][]Trace
+		snaps  map[string][]string // the trace as it prints at the moment it is handed over
 	}
-	newPN := func() *perName { return &perName{traces: map[string][]Trace{}} }
+	newPN := func() *perName { return &perName{traces: map[string][]Trace{}, snaps: map[string][]string{}} }
 	collect := func(p *perName) Collector {
 		return collectorFunc(func(tr Trace) {
 			p.mu.Lock()
 			defer p.mu.Unlock()
 			p.traces[tr.TestName] = append(p.traces[tr.TestName], tr)
+			p.snaps[tr.TestName] = append(p.snaps[tr.TestName], c16Printed(&tr))
 		})
 	}
 	srvSide, cliSide := newPN(), newPN()
@@ -591,7 +594,17 @@ func TestVerifC16HTTP(t *testing.T) {
 		if mode == "nowrite" {
 			return
 		}
+		trailers := size%3 != 0
+		if trailers {
+			w.Header().Set("Trailer", "X-T1")
+		}
 		w.WriteHeader(200)
+		if trailers {
+			defer func() {
+				w.Header().Set("X-T1", "announced")
+				w.Header().Set(http.TrailerPrefix+"X-T2", "unannounced")
+			}()
+		}
 		buf := make([]byte, 0, size+5)
 		buf = append(buf, 0, 0, 0, 0, byte(size%200))
 		buf = append(buf, make([]byte, size%200)...)
@@ -659,6 +672,12 @@ func TestVerifC16HTTP(t *testing.T) {
 			rec := map[string]any{"kind": "http", "side": side, "name": name, "completes": len(trs), "events": []c16Ev{}}
 			if len(trs) > 0 {
 				rec["events"] = c16Project(trs[0]).Events
+				// "records no event after completion": what the collector was handed must not change afterwards
+				if side == "server" {
+					if now := c16Printed(&trs[0]); now != p.snaps[name][0] {
+						rec["changed_after_completion"] = map[string]string{"at_completion": p.snaps[name][0], "afterwards": now}
+					}
+				}
 			}
 			if side == "server" && len(trs) == 0 {
 				// the request may never have reached the server (cancelled before being sent)
@@ -671,6 +690,13 @@ func TestVerifC16HTTP(t *testing.T) {
 	}
 	emit("client", cliSide)
 	emit("server", srvSide)
+}
+
+// the trace as Trace.Print renders it (events, then the response trailers)
+func c16Printed(tr *Trace) string {
+	var p internal.SimplePrinter
+	tr.Print(&p)
+	return strings.Join(p.Messages, "")
 }
 
 type collectorFunc func(Trace)
